@@ -304,7 +304,24 @@ def rule_reset(fx, rep, search, cone):
     if not good:
         ok = False
         rep.violation("C12-RESET", "C12-RESET/ucinewgame/game", "the ucinewgame arm does not install a fresh Game::new()", {"fn": ex.name, "file": ex.file, "line": ex.line})
-    rep.rule("C12-RESET", n, 6, ok, "fields written by search are reset; ucinewgame resets")
+    # the table's slots are not a field write the rule above can see slot by slot: that reset() empties *every* slot (and
+    # zeroes its counters) is decided by C19-CLEAR and re-reported here as part of "ucinewgame means a fresh engine"
+    import core
+    import pC19
+    sub = type(rep)(rep.prop, rep.tier)
+    q = core.QUIET
+    core.QUIET = True
+    try:
+        pC19.rule_clear(fx, sub)
+    finally:
+        core.QUIET = q
+    for v in sub.violations:
+        if v["key"].startswith("C19-CLEAR/reset"):
+            ok = False
+            rep.violation("C12-RESET", v["key"].replace("C19-CLEAR/reset", "C12-RESET/tt"), v["msg"] + ": entries of the previous game survive ucinewgame", v["site"])
+    n += 3
+    rep.obligation(ok, 3)
+    rep.rule("C12-RESET", n, 9, ok, "fields written by search are reset; every table slot emptied; ucinewgame resets")
 
 
 def rule_persearch(fx, rep, search):
@@ -424,6 +441,8 @@ TB = "src/engine/search/tables.rs"
 TC = "src/engine/search/time_control.rs"
 SM = "src/engine/search/mod.rs"
 MUTANTS = [
+    {"name": "table cleared in whole chunks only, the remainder survives (seed C12-5a)", "expect": "C12-RESET/tt/slots",
+     "edits": [(TT, "        for i in 0..self.data.len() {\n            self.data[i] = None;\n        }\n\n        self.generation = 0;", "        for chunk in self.data.chunks_exact_mut(1 << 20) {\n            chunk.fill(None);\n        }\n\n        self.generation = 0;")]},
     {"name": "benign: Option-typed limits (match form)", "benign": True, "edits": shared_mutants.OPT_MATCH},
     {"name": "benign: Option-typed limits (closure form)", "benign": True, "edits": shared_mutants.OPT_CLOSURES},
     {"name": "TT reset forgets generation", "expect": "C12-RESET",
